@@ -298,6 +298,10 @@ func triples() []genTriple {
 		{Name: "go-cycles-split-bytes", Tool: "tl2gen", Args: append(append([]string{}, goBase...), "--split-internal", "--pkgPath=github.com/VKCOM/tl/x/cyc/tl", "--generateByteVersions=*"), Inputs: []string{xsDir + "cycles.tl"}, Marker: "meta/meta.go"},
 		{Name: "go-dirs", Tool: "tl2gen", Args: append(append([]string{}, goBase...), "--pkgPath=github.com/VKCOM/tl/x/dirs/tl"), Inputs: []string{xsDir + "dirA", xsDir + "dirB", xsDir + "dirC"}, Marker: "meta/meta.go"},
 		{Name: "canonical-dirs", Tool: "tl2gen", Args: []string{"--language=canonical"}, Inputs: []string{xsDir + "dirA", xsDir + "dirB", xsDir + "dirC"}, Outfile: "dirs_canonical.tl", NoDir: true},
+		// the same file reachable through two roots with different spellings: rejected today in every order (the
+		// combinators repeat); whatever a generator version makes of it must not depend on the order either
+		{Name: "canonical-dirs-dup", Tool: "tl2gen", Args: []string{"--language=canonical"}, Inputs: []string{xsDir + "dirA", xsDir + "dirB/../dirA/types.tl", xsDir + "dirB", xsDir + "./dirC/types.tl"}, Outfile: "dirs_canonical.tl", NoDir: true},
+		{Name: "tlo-dirs-dup", Tool: "tl2gen", Args: []string{"--language=tlo", "--schemaTimestamp=301822800"}, Inputs: []string{xsDir + "dirC", xsDir + "dirC/./types.tl", xsDir + "dirA", xsDir + "dirB"}, Outfile: "dirs.tlo", NoDir: true},
 		{Name: "tlo-dirs", Tool: "tl2gen", Args: []string{"--language=tlo", "--schemaTimestamp=301822800"}, Inputs: []string{xsDir + "dirC", xsDir + "dirA", xsDir + "dirB"}, Outfile: "dirs.tlo", NoDir: true},
 		{Name: "tlo-goldmaster", Tool: "tl2gen", Args: []string{"--language=tlo", "--schemaTimestamp=301822800"}, Inputs: gm, Outfile: "gm.tlo", NoDir: true},
 		{Name: "canonical-goldmaster", Tool: "tl2gen", Args: []string{"--language=canonical"}, Inputs: gm, Outfile: "gm_canonical.tl", NoDir: true},
@@ -845,6 +849,21 @@ func execC15(g *genCtx, sc genScenario, logf func(string, ...any), fail func(str
 		g.probes["probe.reference_generation_failed."+tr.baseName()]++
 		logf("reference failed: %s", ref.Err)
 		out.Sample = map[string]any{"triple": tr.Name, "reference_error": ref.Err}
+		// ... except that the rejection itself must not depend on order or schedule either
+		if len(sc.Variants) > 0 && ref.Outcome == "done" {
+			v := sc.Variants[0]
+			res, err := g.child(genJob{Args: tr.argsFor(outdir, v), MapPolicy: v.MapPolicy, NumCPU: v.NumCPU, Strategy: v.Strategy, TapeSeed: v.TapeSeed, DiskIn: base, DiskOut: filepath.Join(g.dir, "var0.disk")})
+			if err != nil {
+				fail("machinery", err.Error())
+				return
+			}
+			if res.Err == "" && res.Outcome == "done" {
+				fail("C15/outcome-differs", fmt.Sprintf("%s: the reference generation was rejected (%s) but variant %+v succeeded", tr.Name, tail(ref.Err, 2), v))
+				return
+			}
+			g.probes["probe.c15_rejections_compared"]++
+			out.Nontrivial = true
+		}
 		return
 	}
 	refTree, _, err := loadTree(refDisk)
